@@ -104,6 +104,20 @@ def _simple_helper(fn, allow_nested=True):
         if body is None:
             return None
         own_returns = [n for s in body for n in _walk_own(s) if isinstance(n, ast.Return)]
+    if own_returns and not all(n.value is None for n in own_returns) and (len(own_returns) > 1 or not isinstance(body[-1], ast.Return)):
+        # several value returns: one exit through a result variable
+        rv = '%s_result' % fn.name.strip('_')
+        st = _structure_value_returns(body, rv)
+        if st is None:
+            return None
+        new_body, always = st
+        if not always:
+            new_body = [ast.Assign(targets=[ast.Name(id=rv, ctx=ast.Store())], value=ast.Constant(value=None))] + new_body
+        body = new_body + [ast.Return(value=ast.Name(id=rv, ctx=ast.Load()))]
+        for x in body:
+            ast.copy_location(x, fn)
+            ast.fix_missing_locations(x)
+        own_returns = [body[-1]]
     if not isinstance(body[-1], ast.Return) or body[-1].value is None:
         # a procedure: no return anywhere -> its "value" is None
         if own_returns:
@@ -142,6 +156,49 @@ def _walk_own(node):
         if isinstance(n, (ast.FunctionDef, ast.AsyncFunctionDef, ast.Lambda, ast.ClassDef)) and n is not node:
             continue
         todo.extend(ast.iter_child_nodes(n))
+
+
+def _structure_value_returns(stmts, rv):
+    """statements with `return <value>` in (nested) if branches -> (equivalent statements assigning the value to rv, does every path assign?) or None.
+    Statements after an if whose branch returned move into the other branch:   if c: return a ; REST   ->   if c: rv = a / else: REST'"""
+    import copy
+    out = []
+    for i, s_ in enumerate(stmts):
+        if isinstance(s_, ast.Return):
+            out.append(ast.copy_location(ast.Assign(targets=[ast.Name(id=rv, ctx=ast.Store())], value=copy.deepcopy(s_.value) if s_.value is not None else ast.Constant(value=None)), s_))
+            return out, True
+        if isinstance(s_, ast.Raise):
+            out.append(s_)
+            return out, True        # never falls through: no value is needed on this path
+        has_ret = any(isinstance(n, ast.Return) for n in _walk_own(s_))
+        if not has_ret:
+            out.append(s_)
+            continue
+        if not isinstance(s_, ast.If):
+            return None         # a return inside a loop / try / with
+        b = _structure_value_returns(s_.body, rv)
+        o = _structure_value_returns(s_.orelse, rv)
+        if b is None or o is None:
+            return None
+        (bs, bret), (os_, oret) = b, o
+        rest = stmts[i + 1:]
+        if bret and oret:
+            out.append(ast.copy_location(ast.If(test=s_.test, body=bs or [ast.Pass()], orelse=os_), s_))
+            return out, True
+        r = _structure_value_returns(rest, rv)
+        if r is None:
+            return None
+        rs, rret = r
+        body_has = any(isinstance(n, ast.Return) for x in s_.body for n in _walk_own(x))
+        else_has = any(isinstance(n, ast.Return) for x in s_.orelse for n in _walk_own(x))
+        if bret and not else_has:
+            out.append(ast.copy_location(ast.If(test=s_.test, body=bs or [ast.Pass()], orelse=os_ + rs), s_))
+            return out, rret
+        if oret and not body_has:
+            out.append(ast.copy_location(ast.If(test=s_.test, body=(bs + rs) or [ast.Pass()], orelse=os_), s_))
+            return out, rret
+        return None             # a branch that returns on some of its paths only
+    return out, False
 
 
 def _structure_early_returns(body):
@@ -798,6 +855,40 @@ class WhileCounter(ast.NodeTransformer):
                 if ok and body:
                     args = [bound] if s.value.value == 0 else [s.value, bound]
                     new = ast.For(target=ast.Name(id=v, ctx=ast.Store()), iter=ast.Call(func=ast.Name(id='range', ctx=ast.Load()), args=args, keywords=[]), body=body, orelse=[], type_comment=None)
+                    ast.copy_location(new, nxt)
+                    ast.fix_missing_locations(new)
+                    out.append(new)
+                    i += 2
+                    continue
+            # p = len(L) ; while p > 0: p -= 1 ; x = L[p] ; BODY     ->   for x in reversed(L): BODY          (p not used otherwise)
+            if isinstance(s, ast.Assign) and len(s.targets) == 1 and isinstance(s.targets[0], ast.Name) and isinstance(nxt, ast.While) and not nxt.orelse \
+                    and isinstance(nxt.test, ast.Compare) and len(nxt.test.ops) == 1 and isinstance(nxt.test.ops[0], ast.Gt) and isinstance(nxt.test.left, ast.Name) \
+                    and nxt.test.left.id == s.targets[0].id and isinstance(nxt.test.comparators[0], ast.Constant) and nxt.test.comparators[0].value == 0 and len(nxt.body) >= 2 \
+                    and isinstance(s.value, ast.Call) and isinstance(s.value.func, ast.Name) and s.value.func.id == 'len' and len(s.value.args) == 1 \
+                    and isinstance(s.value.args[0], (ast.Name, ast.Attribute)):
+                v = s.targets[0].id
+                seq = s.value.args[0]
+                first, second = nxt.body[0], nxt.body[1]
+                ok = isinstance(first, ast.AugAssign) and isinstance(first.target, ast.Name) and first.target.id == v and isinstance(first.op, ast.Sub) \
+                    and isinstance(first.value, ast.Constant) and first.value.value == 1
+                ok = ok and isinstance(second, ast.Assign) and len(second.targets) == 1 and isinstance(second.targets[0], ast.Name) and isinstance(second.value, ast.Subscript) \
+                    and ast.dump(second.value.value) == ast.dump(seq) and isinstance(second.value.slice, ast.Name) and second.value.slice.id == v
+                if ok:
+                    x = second.targets[0].id
+                    seq_names = {n.id for n in ast.walk(seq) if isinstance(n, ast.Name)}
+                    for st in nxt.body[2:]:
+                        for n in ast.walk(st):
+                            if isinstance(n, ast.Name) and n.id == v:
+                                ok = False
+                            if isinstance(n, ast.Name) and isinstance(n.ctx, (ast.Store, ast.Del)) and (n.id in seq_names or n.id == x):
+                                ok = False
+                            if isinstance(n, (ast.Yield, ast.YieldFrom)):
+                                pass
+                    if any(isinstance(n, ast.Name) and n.id == v for st in stmts[i + 2:] for n in ast.walk(st)):
+                        ok = False
+                if ok and nxt.body[2:]:
+                    it = ast.Call(func=ast.Name(id='reversed', ctx=ast.Load()), args=[seq], keywords=[])
+                    new = ast.For(target=ast.Name(id=x, ctx=ast.Store()), iter=it, body=nxt.body[2:], orelse=[], type_comment=None)
                     ast.copy_location(new, nxt)
                     ast.fix_missing_locations(new)
                     out.append(new)
